@@ -476,6 +476,17 @@ Print Assumptions htlc_handmade_genesis_can_panic.
 
 Example htlc_nonvacuous : invb true wit_s = true /\ validate true (export wit_s) = true.
 Proof. split; vm_compute; reflexivity. Qed.
+
+(** KNOWN FINDING (clause 7 of the check, corpus/C12/htlc-params-*.jsonl): the four theorems above hold for states
+    satisfying [invb], i.e. as long as the asset parameters are not changed (Genesis/LinkHtlc.v derives [invb] for
+    exactly those histories).  A MsgUpdateParams only validates the new parameter set by itself, and can leave the
+    chain in a state — an asset dropped while its supply record is stored, an asset deactivated under an open
+    transfer, a limit cut below the current supply — whose export validates and whose import panics. *)
+Theorem htlc_import_total_refuted_after_param_change :
+  Forall (fun s : state => invb_core s = true /\ params_cover s = false /\ validate true (export s) = true /\ import true (export s) = None)
+         [pc_dropped; pc_inactive; pc_cut].
+Proof. exact htlc_import_total_refuted_after_param_change_lemma. Qed.
+Print Assumptions htlc_import_total_refuted_after_param_change.
 End HtlcC12.
 
 (** ** mt: all four hold (the owners part of the export compared exactly, in store key order).
